@@ -24,8 +24,10 @@ def sources_untouched(ctx, k, act, d, nv, problems):
 
 def plans(tier):
     if tier == "quick":
-        return [("d3-inplace1", 1, 4), ("d2-inplace2", 1, 2), ("d2-inplace3", 1, 3)]
-    return [("d3-inplace1", 2, 1), ("d2-inplace2", 3, 1), ("d2-inplace3", 2, 1)]
+        return [("d3-inplace-dmd", 1, 2), ("d3-inplace-mdm", 1, 2), ("d3-inplace-ddm", 1, 3), ("d3-inplace-mmd", 1, 2), ("d2-inplace2", 1, 2),
+                ("d2-inplace3", 1, 3)]
+    return [("d3-inplace-dmd", 2, 1), ("d3-inplace-mdm", 2, 1), ("d3-inplace-ddm", 2, 1), ("d3-inplace-mmd", 2, 1), ("d2-inplace2", 3, 1),
+            ("d2-inplace3", 2, 1)]
 
 
 def run(chk):
@@ -62,8 +64,8 @@ def run(chk):
         chk.part("selftest:inplace-is-a-noop", programs=n, detected=hit, passed=True)
         chk.cov["exhaustive"] = True
         chk.cov["rule"] = ("every behaviour of ArrayProgram.tla over {Index, Elemwise, Rechunk, Transpose} and the in-place actions {SetItem "
-                           "(scalar / collection value, every lean basic index), MaskSet (NumPy and dask masks), OutUfunc} of depth 3 (1-D) / "
-                           "2 (2-D, 3-D) that contains an in-place action; all live collections computed after every in-place action")
+                           "(scalar / collection value, every lean basic index), MaskSet (NumPy and dask masks), OutUfunc} of depth 3 (1-D: derive-mutate-derive, mutate-derive-mutate, "
+                           "derive-derive-mutate, mutate-mutate-derive) / 2 (2-D, 3-D) that contains an in-place action; all live collections computed after every in-place action")
         chk.assumptions += ["an in-place operation refused at assignment time (exception raised by the assignment itself) is a decline",
                             "identity operations that return the very same object (x[:]) are followed by .copy(), so every handle of "
                             "the specification is a distinct collection object"]
